@@ -137,3 +137,219 @@ fn nesting_prefixes_and_domains_stay_where_they_were_put() {
     let _ = std::fs::remove_file(p);
     assert_eq!(again, v);
 }
+
+// =====================================================================================================
+// Bounded search (labelled bounded): pseudo-random builder call sequences — every registration method, every modifier
+// in any order and repetition, modifier chains of prefix/domain before nest/routes, nesting up to depth 3 — with the
+// expected schema built alongside by a plain reference model (what the statement says: same registrations, same order,
+// later modifier wins, every location is the line of the user's call). persist -> RON -> schema must equal the model.
+// =====================================================================================================
+mod search {
+    use super::*;
+    pub struct Rng(pub u64);
+    impl Rng { pub fn n(&mut self, n: u64) -> u64 { self.0 ^= self.0 << 13; self.0 ^= self.0 >> 7; self.0 ^= self.0 << 17; self.0 % n } }
+    fn leak(s: String) -> &'static str { Box::leak(s.into_boxed_str()) }
+    pub fn loc(line: u32) -> s::Location { s::Location { line, column: 0, file: file!().to_string() } }
+    fn seh(id: &str, line: u32) -> s::ErrorHandler { s::ErrorHandler { coordinates: sco(id, "error_handler"), registered_at: loc(line) } }
+
+    /// columns are not modelled: zero them everywhere
+    pub fn norm(bp: &mut s::Blueprint) {
+        fn l(x: &mut s::Location) { x.column = 0; }
+        fn eh(e: &mut Option<s::ErrorHandler>) { if let Some(e) = e { l(&mut e.registered_at) } }
+        l(&mut bp.creation_location);
+        for c in &mut bp.components {
+            match c {
+                s::Component::Constructor(x) => { l(&mut x.registered_at); eh(&mut x.error_handler) }
+                s::Component::WrappingMiddleware(x) => { l(&mut x.registered_at); eh(&mut x.error_handler) }
+                s::Component::PreProcessingMiddleware(x) => { l(&mut x.registered_at); eh(&mut x.error_handler) }
+                s::Component::PostProcessingMiddleware(x) => { l(&mut x.registered_at); eh(&mut x.error_handler) }
+                s::Component::Route(x) => { l(&mut x.registered_at); eh(&mut x.error_handler) }
+                s::Component::FallbackRequestHandler(x) => { l(&mut x.registered_at); eh(&mut x.error_handler) }
+                s::Component::ErrorObserver(x) => l(&mut x.registered_at),
+                s::Component::ErrorHandler(x) => l(&mut x.registered_at),
+                s::Component::PrebuiltType(x) => l(&mut x.registered_at),
+                s::Component::ConfigType(x) => l(&mut x.registered_at),
+                s::Component::Import(x) => l(&mut x.registered_at),
+                s::Component::RoutesImport(x) => l(&mut x.registered_at),
+                s::Component::NestedBlueprint(x) => {
+                    l(&mut x.nested_at);
+                    if let Some(p) = &mut x.path_prefix { l(&mut p.registered_at) }
+                    if let Some(d) = &mut x.domain { l(&mut d.registered_at) }
+                    norm(&mut x.blueprint);
+                }
+            }
+        }
+    }
+
+    fn import(rng: &mut Rng) -> (Import, s::Sources) {
+        if rng.n(2) == 0 { (Import { sources: Sources::All, relative_to: "my_pkg", created_at: at() }, s::Sources::All) }
+        else {
+            let v = vec![format!("crate::m{}", rng.n(5)), format!("dep{}", rng.n(5))];
+            (Import { sources: Sources::Some(v.iter().cloned().map(Into::into).collect()), relative_to: "my_pkg", created_at: at() }, s::Sources::Some(v))
+        }
+    }
+    fn s_created_at() -> s::CreatedAt { s::CreatedAt { package_name: "my_pkg".into(), package_version: "1.2.3".into() } }
+
+    /// builds a random blueprint through the public API and, alongside, the schema the statement says the compiler must see
+    pub fn generate(rng: &mut Rng, depth: u32, counter: &mut u32) -> (Blueprint, s::Blueprint) {
+        let (l0, mut bp) = (line!(), Blueprint::new());
+        let mut want = s::Blueprint { creation_location: loc(l0), components: vec![] };
+        let n_ops = rng.n(7);
+        for _ in 0..n_ops {
+            *counter += 1;
+            let id = leak(format!("ID{}", *counter));
+            let ehid = leak(format!("EH{}", *counter));
+            match rng.n(if depth < 3 { 14 } else { 12 }) {
+                0 | 1 => {
+                    let (l, mut h) = (line!(), bp.constructor(Constructor { coordinates: co(id, "constructor") }));
+                    let mut w = s::Constructor { coordinates: sco(id, "constructor"), lifecycle: None, cloning_policy: None, error_handler: None, lints: Default::default(), registered_at: loc(l) };
+                    for _ in 0..rng.n(6) {
+                        let lint = if rng.n(2) == 0 { (Lint::Unused, s::Lint::Unused) } else { (Lint::ErrorFallback, s::Lint::ErrorFallback) };
+                        match rng.n(9) {
+                            0 => { h = h.lifecycle(Lifecycle::Singleton); w.lifecycle = Some(s::Lifecycle::Singleton); }
+                            1 => { h = h.lifecycle(Lifecycle::RequestScoped); w.lifecycle = Some(s::Lifecycle::RequestScoped); }
+                            2 => { h = h.lifecycle(Lifecycle::Transient); w.lifecycle = Some(s::Lifecycle::Transient); }
+                            3 => { h = h.clone_if_necessary(); w.cloning_policy = Some(s::CloningPolicy::CloneIfNecessary); }
+                            4 => { h = h.never_clone(); w.cloning_policy = Some(s::CloningPolicy::NeverClone); }
+                            5 => { h = h.allow(lint.0); w.lints.insert(lint.1, s::LintSetting::Allow); }
+                            6 => { h = h.warn(lint.0); w.lints.insert(lint.1, s::LintSetting::Warn); }
+                            7 => { h = h.deny(lint.0); w.lints.insert(lint.1, s::LintSetting::Deny); }
+                            _ => { let le = line!(); h = h.error_handler(ErrorHandler { coordinates: co(ehid, "error_handler") }); w.error_handler = Some(seh(ehid, le)); }
+                        }
+                    }
+                    let _ = h;
+                    want.components.push(s::Component::Constructor(w));
+                }
+                2 => {
+                    let (l, mut h) = (line!(), bp.wrap(WrappingMiddleware { coordinates: co(id, "wrap") }));
+                    let mut w = s::WrappingMiddleware { coordinates: sco(id, "wrap"), registered_at: loc(l), error_handler: None };
+                    for _ in 0..rng.n(3) { let le = line!(); h = h.error_handler(ErrorHandler { coordinates: co(ehid, "error_handler") }); w.error_handler = Some(seh(ehid, le)); }
+                    let _ = h; want.components.push(s::Component::WrappingMiddleware(w));
+                }
+                3 => {
+                    let (l, mut h) = (line!(), bp.pre_process(PreProcessingMiddleware { coordinates: co(id, "pre_process") }));
+                    let mut w = s::PreProcessingMiddleware { coordinates: sco(id, "pre_process"), registered_at: loc(l), error_handler: None };
+                    for _ in 0..rng.n(3) { let le = line!(); h = h.error_handler(ErrorHandler { coordinates: co(ehid, "error_handler") }); w.error_handler = Some(seh(ehid, le)); }
+                    let _ = h; want.components.push(s::Component::PreProcessingMiddleware(w));
+                }
+                4 => {
+                    let (l, mut h) = (line!(), bp.post_process(PostProcessingMiddleware { coordinates: co(id, "post_process") }));
+                    let mut w = s::PostProcessingMiddleware { coordinates: sco(id, "post_process"), registered_at: loc(l), error_handler: None };
+                    for _ in 0..rng.n(3) { let le = line!(); h = h.error_handler(ErrorHandler { coordinates: co(ehid, "error_handler") }); w.error_handler = Some(seh(ehid, le)); }
+                    let _ = h; want.components.push(s::Component::PostProcessingMiddleware(w));
+                }
+                5 => {
+                    let (l, mut h) = (line!(), bp.route(Route { coordinates: co(id, "route") }));
+                    let mut w = s::Route { coordinates: sco(id, "route"), registered_at: loc(l), error_handler: None };
+                    for _ in 0..rng.n(3) { let le = line!(); h = h.error_handler(ErrorHandler { coordinates: co(ehid, "error_handler") }); w.error_handler = Some(seh(ehid, le)); }
+                    let _ = h; want.components.push(s::Component::Route(w));
+                }
+                6 => {
+                    let (l, mut h) = (line!(), bp.fallback(Fallback { coordinates: co(id, "fallback") }));
+                    let mut w = s::Fallback { coordinates: sco(id, "fallback"), registered_at: loc(l), error_handler: None };
+                    for _ in 0..rng.n(3) { let le = line!(); h = h.error_handler(ErrorHandler { coordinates: co(ehid, "error_handler") }); w.error_handler = Some(seh(ehid, le)); }
+                    let _ = h; want.components.push(s::Component::FallbackRequestHandler(w));
+                }
+                7 => {
+                    let (l, mut h) = (line!(), bp.config(Config { coordinates: co(id, "config") }));
+                    let mut w = s::ConfigType { coordinates: sco(id, "config"), cloning_policy: None, default_if_missing: None, include_if_unused: None, registered_at: loc(l) };
+                    for _ in 0..rng.n(5) {
+                        match rng.n(5) {
+                            0 => { h = h.default_if_missing(); w.default_if_missing = Some(true); }
+                            1 => { h = h.required(); w.default_if_missing = Some(false); }
+                            2 => { h = h.include_if_unused(); w.include_if_unused = Some(true); }
+                            3 => { h = h.clone_if_necessary(); w.cloning_policy = Some(s::CloningPolicy::CloneIfNecessary); }
+                            _ => { h = h.never_clone(); w.cloning_policy = Some(s::CloningPolicy::NeverClone); }
+                        }
+                    }
+                    let _ = h; want.components.push(s::Component::ConfigType(w));
+                }
+                8 => {
+                    let (l, mut h) = (line!(), bp.prebuilt(Prebuilt { coordinates: co(id, "prebuilt") }));
+                    let mut w = s::PrebuiltType { coordinates: sco(id, "prebuilt"), cloning_policy: None, registered_at: loc(l) };
+                    for _ in 0..rng.n(3) {
+                        if rng.n(2) == 0 { h = h.clone_if_necessary(); w.cloning_policy = Some(s::CloningPolicy::CloneIfNecessary); }
+                        else { h = h.never_clone(); w.cloning_policy = Some(s::CloningPolicy::NeverClone); }
+                    }
+                    let _ = h; want.components.push(s::Component::PrebuiltType(w));
+                }
+                9 => {
+                    let l = line!(); bp.error_observer(ErrorObserver { coordinates: co(id, "error_observer") });
+                    want.components.push(s::Component::ErrorObserver(s::ErrorObserver { coordinates: sco(id, "error_observer"), registered_at: loc(l) }));
+                }
+                10 => {
+                    let l = line!(); bp.error_handler(ErrorHandler { coordinates: co(id, "error_handler") });
+                    want.components.push(s::Component::ErrorHandler(seh(id, l)));
+                }
+                11 => {
+                    let (i, src) = import(rng);
+                    if rng.n(2) == 0 {
+                        let l = line!(); bp.import(i);
+                        want.components.push(s::Component::Import(s::Import { sources: src, relative_to: "my_pkg".into(), created_at: s_created_at(), registered_at: loc(l) }));
+                    } else {
+                        let l = line!(); bp.routes(i);
+                        want.components.push(s::Component::RoutesImport(s::RoutesImport { sources: src, relative_to: "my_pkg".into(), created_at: s_created_at(), registered_at: loc(l) }));
+                    }
+                }
+                12 => {
+                    // plain nest
+                    let (child, wchild) = generate(rng, depth + 1, counter);
+                    let l = line!(); bp.nest(child);
+                    want.components.push(s::Component::NestedBlueprint(s::NestedBlueprint { blueprint: wchild, path_prefix: None, domain: None, nested_at: loc(l) }));
+                }
+                _ => {
+                    // a chain of routing modifiers, then nest or routes; chains repeat prefixes/domains on purpose so that
+                    // two consecutive chains with the same prefix and domain occur
+                    let prefixes = ["/api", "/v1", "/admin"];
+                    let domains = ["example.com", "{sub}.example.com"];
+                    let (mut wp, mut wd): (Option<s::PathPrefix>, Option<s::Domain>) = (None, None);
+                    let mut m = if rng.n(2) == 0 {
+                        let p = prefixes[rng.n(3) as usize];
+                        let (l, m) = (line!(), bp.prefix(p)); wp = Some(s::PathPrefix { path_prefix: p.into(), registered_at: loc(l) }); m
+                    } else {
+                        let d = domains[rng.n(2) as usize];
+                        let (l, m) = (line!(), bp.domain(d)); wd = Some(s::Domain { domain: d.into(), registered_at: loc(l) }); m
+                    };
+                    for _ in 0..rng.n(3) {
+                        if rng.n(2) == 0 {
+                            let p = prefixes[rng.n(3) as usize];
+                            let l = line!(); m = m.prefix(p); wp = Some(s::PathPrefix { path_prefix: p.into(), registered_at: loc(l) });
+                        } else {
+                            let d = domains[rng.n(2) as usize];
+                            let l = line!(); m = m.domain(d); wd = Some(s::Domain { domain: d.into(), registered_at: loc(l) });
+                        }
+                    }
+                    if rng.n(3) == 0 {
+                        let (i, src) = import(rng);
+                        let l = line!(); m.routes(i);
+                        let inner = s::Blueprint { creation_location: loc(l), components: vec![s::Component::RoutesImport(s::RoutesImport { sources: src, relative_to: "my_pkg".into(), created_at: s_created_at(), registered_at: loc(l) })] };
+                        want.components.push(s::Component::NestedBlueprint(s::NestedBlueprint { blueprint: inner, path_prefix: wp, domain: wd, nested_at: loc(l) }));
+                    } else {
+                        let (child, wchild) = generate(rng, depth + 1, counter);
+                        let l = line!(); m.nest(child);
+                        want.components.push(s::Component::NestedBlueprint(s::NestedBlueprint { blueprint: wchild, path_prefix: wp, domain: wd, nested_at: loc(l) }));
+                    }
+                }
+            }
+        }
+        (bp, want)
+    }
+}
+
+#[test]
+fn bounded_search_over_builder_call_sequences() {
+    let thorough = std::env::var("VERIF_TIER").map(|t| t == "thorough").unwrap_or(false);
+    let n: u64 = if thorough { 20_000 } else { 2_000 };
+    let mut rng = search::Rng(0x2545F4914F6CDD1D);
+    let (mut components, mut nested) = (0usize, 0usize);
+    for i in 0..n {
+        let mut counter = 0u32;
+        let (bp, want) = search::generate(&mut rng, 0, &mut counter);
+        let mut got = read_back(&bp, "search");
+        search::norm(&mut got);
+        components += counter as usize;
+        nested += want.components.iter().filter(|c| matches!(c, s::Component::NestedBlueprint(_))).count();
+        assert_eq!(got, want, "call sequence #{i}: what the compiler reads back differs from what was registered");
+    }
+    println!("VERIF-BOUNDED test=bounded_search_over_builder_call_sequences evaluations={n} bound=pseudo-random blueprints (fixed seed): up to 6 registrations per blueprint out of all 13 kinds, every modifier in any order with repetition, prefix/domain chains of up to 3 calls before nest/routes, nesting depth up to 3; {components} registrations, {nested} top-level nestings; compared field by field (columns excepted) with a reference model after persist -> RON -> pavex_bp_schema");
+}
